@@ -1110,6 +1110,11 @@ func c21GenWith(r *Rand) string {
 	return r.Pick([]string{"X", "$w", "'$1'", "\"$w\""})
 }
 
+var c21CasePats = []string{"ab", "a*", "??", "[ab]c", "*b", "bc", "a?", "?*", "abc", "b*", "[ab][bc]", "AB", "A*", "[AB]C", "*B", "é?", "a\\*", "\"a\"*", "**", "?"}
+
+// values in which such patterns match substrings
+var c21CaseVals = []string{"abcabc", "abab", "aabc", "ABCABC", "ABAB", "bcbc", "abc", "AbcAbc", "éabéab", "a*a*", "cab cab"}
+
 var c21Words = []string{"w", "", "ab", "a:b", "W w", "*", "A", "é", "a b"}
 
 // c21GenForm draws the `${…}` source text for the state.
@@ -1190,8 +1195,13 @@ func c21GenForm(r *Rand, st c21State) string {
 	case 12, 13:
 		op := r.Pick([]string{"^", "^^", ",", ",,"})
 		pat := ""
-		if r.Chance(60) {
-			pat = r.Pick([]string{"?", "*", "[ab]", "a", "[!a]", "[A-Z]", "é", "ab", "[a-b]", "[[:alpha:]]", "A", "É"})
+		switch r.Intn(10) {
+		case 0, 1, 2:
+			pat = r.Pick([]string{"?", "*", "[ab]", "a", "[!a]", "[A-Z]", "é", "[a-b]", "[[:alpha:]]", "A", "É"})
+		case 3, 4, 5, 6:
+			// patterns of more than one character: each character is tested on its own, so a
+			// pattern that needs two characters converts nothing and `a*` converts the a's only
+			pat = r.Pick(c21CasePats)
 		}
 		return "${" + param + op + pat + "}"
 	case 14:
@@ -1278,9 +1288,43 @@ func c21GenAst(r *Rand) c21Case {
 	return c21Case{st: st, quoted: r.Bool(), nounset: r.Chance(5), ast: pe}
 }
 
+func c21IsCaseSrc(src string) bool {
+	i := strings.IndexAny(src, "^,")
+	return i > 2 && !strings.ContainsAny(src[:i], "/#%:@-=?+")
+}
+
 func c21GenCase(r *Rand) c21Case {
 	st := c21GenState(r)
-	return c21Case{st: st, src: c21GenForm(r, st), quoted: r.Chance(50), nounset: r.Chance(4)}
+	src := c21GenForm(r, st)
+	if c21IsCaseSrc(src) && r.Chance(65) {
+		// case conversion: values in which multi-character patterns match substrings, on the
+		// scalar, the array elements and the positional parameters
+		pick := func() string { return r.Pick(c21CaseVals) }
+		v := st.vars["x"]
+		switch v.kind {
+		case 's':
+			v.str = pick()
+		case 'i', 'a':
+			v.list = append([]string{}, v.list...)
+			for i := range v.list {
+				if r.Chance(70) {
+					v.list[i] = pick()
+				}
+			}
+		}
+		st.vars["x"] = v
+		st.params = append([]string{}, st.params...)
+		for i := range st.params {
+			if r.Chance(70) {
+				st.params[i] = pick()
+			}
+		}
+		if y := st.vars["y"]; y.kind == 's' {
+			y.str = pick()
+			st.vars["y"] = y
+		}
+	}
+	return c21Case{st: st, src: src, quoted: r.Chance(50), nounset: r.Chance(4)}
 }
 
 // ---------------------------------------------------------------------------------------------
@@ -1491,11 +1535,18 @@ func c21Units(c *Ctx, r *Rand) {
 		}
 		c.Op("specrepl n "+b+" "+hx(pat)+" "+hx(with)+" "+hx(s), hx(got))
 		c.Case("repl\x00"+s+"\x00"+src, got != s, "unit=repl")
-	case 2: // case conversion
+	case 2: // case conversion: per character, the pattern must match that single character
 		op := r.Pick([]string{"^", "^^", ",", ",,"})
 		pat := ""
-		if r.Chance(60) {
+		switch r.Intn(10) {
+		case 0, 1, 2:
 			pat = r.Pick([]string{"?", "*", "[ab]", "a", "[!a]", "[A-Z]", "é", "[a-b]", "A", "É", "[é]"})
+		case 3, 4, 5, 6, 7:
+			pat = r.Pick([]string{"ab", "a*", "??", "[ab]c", "*b", "bc", "a?", "?*", "abc", "b*", "[ab][bc]", "AB", "A*", "[AB]C", "*B", "é?", "**"})
+			if r.Chance(70) {
+				s = r.Pick(c21CaseVals)
+				st = c21ScalarState(s)
+			}
 		}
 		src := "${x" + op + pat + "}"
 		got, ok := c21LitOf(c, src, st)
